@@ -200,6 +200,10 @@ def _reach_sessions(ctx):
         for n in sizes:
             ps += [ser.pos_str(p) for _, p in td.tactical_positions(rng, n, 2)]
         out.append({"positions": ps, "seed": rng.randrange(1 << 30)})
+    # an evaluator that hands out one tensor it keeps, several expansions per search
+    for sizes in ([[3, 4], [5, 3], [4, 5, 4]] * (3 if ctx.thorough else 1)):
+        ps = [ser.pos_str(rng.choice(td.start_positions(rng, n, 3, custom_prob=0.3))) for n in sizes]
+        out.append({"positions": ps, "seed": rng.randrange(1 << 30), "evaluator": "uniform-kept", "budget": rng.choice([12, 30])})
     # searches that end on the clock (time_limit) instead of a visit count: wherever the deadline
     # falls, every node the search has expanded carries every legal continuation
     for sizes, tl in ([([5, 6, 4], 0.03), ([6, 6], 0.015), ([4, 5, 6], 0.05), ([3, 6], 0.008)] * (3 if ctx.thorough else 1)):
@@ -227,10 +231,10 @@ def _reach_run(ctx, sess):
 
     td.single_thread()
     torch.manual_seed(sess["seed"])
-    rec = td.Recorder(td.HarnessEvaluator("uniform", sess["seed"], 1e-6), "torch", sess["seed"])
+    rec = td.Recorder(td.HarnessEvaluator(sess.get("evaluator", "uniform"), sess["seed"], 1e-6), "torch", sess["seed"])
     rec.capture_solver = False
     tl = sess.get("time_limit", 0)
-    engine = mcts.MCTS(mcts.Config(time_limit=tl, simulation_limit=0 if tl else 1), rec)
+    engine = mcts.MCTS(mcts.Config(time_limit=tl, simulation_limit=0 if tl else sess.get("budget", 1)), rec)
     seen, lines = [], []
     with rec:
         for ps in sess["positions"]:
@@ -238,7 +242,7 @@ def _reach_run(ctx, sess):
             T = _impl_table(pos.size) or []
             try:
                 tree = engine.analyze(pos)
-                nodes = _expanded(tree) if tl else [tree]
+                nodes = _expanded(tree) if tl or sess.get("budget") else [tree]
             except Exception as e:
                 seen.append((ps, "crash " + type(e).__name__, T))
                 lines.append("gen legalmask %s %s" % (ps, ";".join(mv(m) for m in T)))
